@@ -197,3 +197,11 @@ Fixpoint show_ops (l : list op) : string :=
 (* several programs, separated by a line "--" *)
 Fixpoint show_progs (l : list (list op)) : string :=
   match l with [] => "" | p :: r => show_ops p ++ "--" ++ nl ++ show_progs r end.
+
+(* membership of real dumps in the proved encoding class, one character per case *)
+From DD Require Import Pickle.Encodes.
+Fixpoint show_accepts (l : list (list op * pv)) : string :=
+  match l with
+  | [] => ""
+  | (p, d) :: r => (if accepts p d then "T" else "F") ++ show_accepts r
+  end.
